@@ -429,16 +429,17 @@ def find_root_unit():
     def build():
         hc = lambda c: H(c.eng, c.st)
 
-        def no_hidden_above(h, t):          # a detached task has no hidden WBS root among its ancestors (W1 + WR), so the public parent is the parent
-            return ForAll([x], Implies(Or(x == t, Desc(h.par, x, t)), And(h.tid[x] != EMPTY, Implies(h.par[x] != null, h.tid[h.par[x]] != EMPTY))))
+        def detached_pre(h, t):          # a task outside every WBS: by W1 / DR / WR no hidden root is above it, so the public parent is the parent
+            I = Inv(h)
+            return And(t != null, h.own[t] == W.null, I['C11/W1-owner-follows-the-hierarchy'], I['DR-reserved-id-marks-hidden-roots-only'])
 
         def c_rec(eng, st, recv, args, kws, node):
             h = H(eng, st); t = args[0].e; me = st.env['task'].e
-            st.oblige('req@_find_root/task-non-null-outside-every-WBS', And(t != null, no_hidden_above(h, t)), f'@{node.lineno}')
+            st.oblige('req@_find_root/task-non-null-outside-every-WBS', detached_pre(h, t), f'@{node.lineno}')
             st.oblige('dec/C14/depth-decreases-at-the-recursive-call', And(dep(h.par, t) < dep(h.par, me), dep(h.par, t) >= 0), f'@{node.lineno}')
             r = fresh('root', T); st.assume(r == rootof(h.par, t))
             return [(st, V(r, T))]
-        fc = {'sig': {'task': T}, 'requires': [('acyclic', lambda c: And(Acyc(hc(c).par), hc(c).par[null] == null)), ('task-non-null-outside-every-WBS', lambda c: And(c['task'] != null, no_hidden_above(hc(c), c['task'])))],
+        fc = {'sig': {'task': T}, 'requires': [('acyclic', lambda c: And(Acyc(hc(c).par), hc(c).par[null] == null)), ('task-non-null-outside-every-WBS', lambda c: detached_pre(hc(c), c['task']))],
               'ensures': [('C05/result-is-the-root-of-the-tree-of-the-task', lambda c: c.result.e == rootof(hc(c).par, c['task'])), ('C16/reads-only', same_heap)]}
         return Engine(F, '_find_root', {'fn:_find_root': c_rec, 'prop:Task.parent': c_pubparent}, TASK_CLASSES, fc, plugins=[GenPlugin()]), LIST_AX + GRAPH_AX + ROOT_AX + MEASURE_AX
     return Unit('_find_root', F, build, ['C05', 'C14'], timeout_ms=15000)
